@@ -116,7 +116,13 @@ int verif_case(const uint8_t *data, size_t size, Case &c) {
     bool nullp = false; unsigned mis = 0; size_t longn = 0;
     if (!g_early.why.empty()) return c.fail(g_early.why);
     uint8_t mode = r.u8();
-    if (mode == 0xFF) {                     // directed: the rest is the array itself (used by the enumerator)
+    if (mode == 0xFE) {                     // directed by length (used by the enumerator): 24-bit length and a content selector; bytes are never zero
+        size_t n = r.u8(); n |= (size_t)r.u8() << 8; n |= (size_t)r.u8() << 16; unsigned sel = r.u8();
+        if (n > (1u << 18)) n = 1u << 18;
+        x.resize(n);
+        for (size_t i = 0; i < n; i++) x[i] = (uint8_t)(1 + (i * 131 + sel * 17 + (i >> 8) * 7) % 255);
+        c.label("directed-length"); c.label("long>=500");
+    } else if (mode == 0xFF) {                     // directed: the rest is the array itself (used by the enumerator)
         while (!r.exhausted()) x.push_back(r.u8());
         c.label("directed");
     } else {
@@ -161,6 +167,24 @@ long verif_enumerate(int shard, int nshards, int tier, verif::EnumReport &r) {
         }
         return true;
     };
+    // arrays of 9 KB .. 96 KB whose lengths sit on and next to multiples of 3072, 4096 and 9216 bytes (block-wise encoders / decoders),
+    // never-zero content, two contents each
+    {
+        static const unsigned centers[] = {3072, 6144, 9216, 12288, 18432, 27648, 36864, 4096, 8192, 16384, 32768, 49152, 65536, 98304};
+        int idx = 0;
+        for (unsigned cen : centers) for (int d = -3; d <= 4; d++) for (unsigned sel = 0; sel < 2; sel++) {
+            if (idx++ % nshards != shard) continue;
+            const size_t n = cen + d;
+            std::vector<uint8_t> x(n);
+            for (size_t i = 0; i < n; i++) x[i] = (uint8_t)(1 + (i * 131 + sel * 17 + (i >> 8) * 7) % 255);
+            uint8_t cb[5] = {0xFE, (uint8_t)n, (uint8_t)(n >> 8), (uint8_t)(n >> 16), (uint8_t)sel};
+            verif::set_current(cb, 5);
+            r.evaluations++; r.nontrivial++;
+            std::string why = check_array(x.data(), n, false, (unsigned)(d & 7));
+            if (!why.empty()) { r.failure = why; r.failing_case = "C14 " + render(x.data(), n); r.failing_bytes.assign(cb, cb + 5); return r.evaluations; }
+        }
+        if (shard == 0) r.exhausted.push_back("arrays of length c-3..c+4 for c in {3072, 6144, 9216, 12288, 18432, 27648, 36864, 4096, 8192, 16384, 32768, 49152, 65536, 98304}, never-zero content (2 contents), every decoder");
+    }
     for (int a = shard; a < 256; a += nshards) {
         for (int b = 0; b < 256; b++) {
             for (int cc = 0; cc < 256; cc++) {
